@@ -44,6 +44,9 @@ ASSUMPTIONS = [
     "annotations are built from 37 spellings: schema tags, value-taking tags (Label/Def/ID) whose value is spelled "
     "like a schema term, extensions, and extensions that are schema terms (not identified: no schema path, short "
     "form = text); nesting depth <= 4; query depth <= 4",
+    "the batch entry point (query_service.get_query_handlers + search_hed_objs) is compared ROW BY ROW with the "
+    "single-annotation answers and the set semantics on lists holding None / empty annotations at every position "
+    "(implementation only; the factor_hed_tags remodeling operation that calls it is not run)",
     "the independent set-semantics evaluator, the metamorphic laws, repeated-search / purity / batch-interface "
     "checks and 'a built or edited annotation answers like the same annotation parsed from its own text' run on the "
     "implementation only -- C15_search_ignores_history / C15_search_same_content hold by construction of the model "
@@ -502,7 +505,34 @@ STAR = ["Sens", "R", "Label/a", "Label/", "Ob", "", "Eve", "Agent-", "B", "red",
         "Lab", "Label/R", "Def/", "ID/R", "Label/a/", "Item/R", "Obj", "Red-color/", "I"]
 
 
-def gen_atom(rng, allow_wild=True):
+def focus_atoms(rng, tree):
+    """A few atomic queries about the annotation's OWN tags (a path term, the quoted short form, a star prefix), so
+    that the operands of one query triple hit the same few tags (distinct-tag bookkeeping, duplicate filtering)."""
+    tags = []
+
+    def walk(ch):
+        for c in ch:
+            if c[0] == "T":
+                tags.append(c[1])
+            else:
+                walk(c[1])
+    walk(tree)
+    out = []
+    for t in rng.sample(tags, min(len(tags), 3)):
+        terms, short, _ = tag_info(t)
+        if terms:
+            out.append(("term", rng.choice(terms)))
+        out.append(("quoted", short))
+        out.append(("star", short[:rng.randint(1, max(1, len(short) - 1))]))
+    out += [("wild", rng.choice([1, 2, 3])), ("wild", rng.choice([1, 2, 3]))]
+    return out
+
+
+def gen_atom(rng, allow_wild=True, focus=None):
+    if focus and rng.random() < 0.75:
+        a = rng.choice(focus)
+        if allow_wild or a[0] != "wild":
+            return a
     x = rng.random()
     if x < 0.45:
         return ("term", rng.choice(BARE))
@@ -517,25 +547,25 @@ def gen_atom(rng, allow_wild=True):
     return ("term", rng.choice(BARE))
 
 
-def gen_query(rng, depth, allow_wild=True):
+def gen_query(rng, depth, allow_wild=True, focus=None):
     if depth <= 0 or rng.random() < 0.22:
-        return gen_atom(rng, allow_wild)
+        return gen_atom(rng, allow_wild, focus)
     x = rng.random()
     if x < 0.27:
-        return ("and", rng.choice(["&&", "&&", ","]), gen_query(rng, depth - 1, allow_wild), gen_query(rng, depth - 1, allow_wild))
+        return ("and", rng.choice(["&&", "&&", ","]), gen_query(rng, depth - 1, allow_wild, focus), gen_query(rng, depth - 1, allow_wild, focus))
     if x < 0.42:
-        return ("or", gen_query(rng, depth - 1, allow_wild), gen_query(rng, depth - 1, allow_wild))
+        return ("or", gen_query(rng, depth - 1, allow_wild, focus), gen_query(rng, depth - 1, allow_wild, focus))
     if x < 0.55:
-        return ("not", gen_query(rng, depth - 1, allow_wild and rng.random() < 0.1))
+        return ("not", gen_query(rng, depth - 1, allow_wild and rng.random() < 0.1, focus))
     if x < 0.62:
-        return ("paren", gen_query(rng, depth - 1, allow_wild))
+        return ("paren", gen_query(rng, depth - 1, allow_wild, focus))
     if x < 0.74:
-        return ("desc", gen_query(rng, depth - 1, allow_wild))
+        return ("desc", gen_query(rng, depth - 1, allow_wild, focus))
     if x < 0.84:
-        return ("ex", gen_query(rng, depth - 1, allow_wild))
+        return ("ex", gen_query(rng, depth - 1, allow_wild, focus))
     if x < 0.92:
-        return ("exnone", gen_query(rng, depth - 1, allow_wild and rng.random() < 0.7))
-    return ("exopt", gen_query(rng, depth - 1, allow_wild), gen_query(rng, depth - 1, allow_wild))
+        return ("exnone", gen_query(rng, depth - 1, allow_wild and rng.random() < 0.7, focus))
+    return ("exopt", gen_query(rng, depth - 1, allow_wild, focus), gen_query(rng, depth - 1, allow_wild, focus))
 
 
 def q_text(q, top=True):
@@ -778,6 +808,100 @@ def impl_search_case(case):
     return r
 
 
+# ---------------------------------------------------------------- the batch entry point, row by row
+# batch = {"rows": [annotation text | "" | None, ...], "queries": [query text, ...]}
+
+def impl_batch(batch):
+    """query_service.get_query_handlers + search_hed_objs on a list of annotations that may hold None / empty
+    entries anywhere; returns the frame as a matrix, and the single-annotation answer of every (row, query)."""
+    from hed.models.hed_string import HedString
+    from hed.models.query_handler import QueryHandler
+    from hed.models.query_service import get_query_handlers, search_hed_objs
+    r = {"problems": []}
+    try:
+        names = [f"q{j}" for j in range(len(batch["queries"]))]
+        handlers, names2, issues = get_query_handlers(list(batch["queries"]), names)
+        if issues or list(names2) != names or any(h is None for h in handlers):
+            r["problems"].append(f"get_query_handlers: issues={issues} names={names2}")
+            return r
+        objs = [None if t is None else HedString(t, schema()) for t in batch["rows"]]
+        df = search_hed_objs(objs, handlers, names)
+        r["shape"] = list(df.shape)
+        r["index"] = [int(i) for i in df.index]
+        r["columns"] = list(df.columns)
+        r["frame"] = [[int(df.at[i, n]) for n in names] for i in range(len(objs))]
+        single = []
+        for t in batch["rows"]:
+            if not t:
+                single.append([0] * len(names))    # documented: empty entries or None entries are 0's
+            else:
+                hs = HedString(t, schema())
+                single.append([1 if QueryHandler(q).search(hs) else 0 for q in batch["queries"]])
+        r["single"] = single
+    except Exception as e:  # noqa
+        r["problems"].append(f"raised {type(e).__name__}: {e}")
+    return r
+
+
+def gen_batches(rng, cases, n):
+    """Lists of 1..6 annotations taken from the cases, with None / empty entries inserted at random positions
+    (also first and last), and 1..4 compiled queries; plus a systematic sweep: one None / empty entry at every
+    position of a short list."""
+    pool = [c for c in cases if c["route"]["kind"] == "parse"]
+    out = []
+
+    def queries_of(c):
+        names = [k for k in ("A", "B", "C", "A||B", "A&&B") if not q_rejected(c["qast"][k])]
+        rng.shuffle(names)
+        return names[:rng.randint(1, 4)]
+    for _ in range(n):
+        qc = rng.choice(pool)
+        qn = queries_of(qc)
+        if not qn:
+            continue
+        rows = [(c["ann"], c["tree"]) for c in (rng.choice(pool) for _ in range(rng.randint(1, 6)))]
+        for _ in range(rng.choice([0, 1, 1, 2, 2, 3])):
+            rows.insert(rng.randrange(len(rows) + 1), (rng.choice([None, ""]), None))
+        out.append({"rows": [t for t, _ in rows], "trees": [tr for _, tr in rows],
+                    "queries": [qc["queries"][k] for k in qn], "qast": [qc["qast"][k] for k in qn]})
+    for _ in range(max(3, n // 12)):
+        qc = rng.choice(pool)
+        qn = queries_of(qc)
+        if not qn:
+            continue
+        base = [(c["ann"], c["tree"]) for c in (rng.choice(pool) for _ in range(3))]
+        for pos in range(len(base) + 1):
+            for hole in (None, ""):
+                rows = base[:pos] + [(hole, None)] + base[pos:]
+                out.append({"rows": [t for t, _ in rows], "trees": [tr for _, tr in rows],
+                            "queries": [qc["queries"][k] for k in qn], "qast": [qc["qast"][k] for k in qn]})
+    return out
+
+
+def check_batch(b, r, res, stats):
+    """Row i / column j of the frame = the answer of query j on annotation i alone (0 for None / empty), and = the
+    set semantics of the statement on that annotation."""
+    case = {"batch_rows": b["rows"], "batch_queries": b["queries"]}
+
+    def fail(detail):
+        stats["oracle_failures"] += 1
+        res.report("batch-row-by-row", case, detail)
+    if r["problems"]:
+        fail("; ".join(r["problems"]))
+        return
+    nq = len(b["queries"])
+    if r["shape"] != [len(b["rows"]), nq] or r["index"] != list(range(len(b["rows"]))) or \
+            r["columns"] != [f"q{j}" for j in range(nq)]:
+        fail(f"frame shape/index/columns {r['shape']} {r['index']} {r['columns']}")
+        return
+    for i, row in enumerate(b["rows"]):
+        want = [0] * nq if not row else [1 if set_verdict(tup(q), list(tup(b["trees"][i]))) else 0 for q in b["qast"]]
+        if r["frame"][i] != r["single"][i] or r["frame"][i] != want:
+            fail(f"row {i} ({row!r}): frame {r['frame'][i]}, each query on this annotation alone {r['single'][i]}, "
+                 f"set semantics {want}")
+            return
+
+
 def impl_compile(q):
     from hed.models.query_handler import QueryHandler
     try:
@@ -876,7 +1000,8 @@ def make_case(rng, depth_a=None, depth_q=None, fixed=None):
         ann = gen_children(rng, rng.randint(0, 4) if depth_a is None else depth_a, top=True)
         shuf = shuffle_tree(rng, ann)
         d = rng.randint(0, 3) if depth_q is None else depth_q
-        A, B, Cq = gen_query(rng, d), gen_query(rng, d), gen_query(rng, max(d - 1, 0))
+        focus = focus_atoms(rng, ann) if rng.random() < 0.5 else None
+        A, B, Cq = gen_query(rng, d, True, focus), gen_query(rng, d, True, focus), gen_query(rng, max(d - 1, 0), True, focus)
     qs = {"A": A, "B": B, "C": Cq,
           "A&&B": ("and", "&&", A, B), "B&&A": ("and", "&&", B, A), "A||B": ("or", A, B),
           "(A&&B)&&C": ("and", "&&", ("and", "&&", A, B), Cq), "A&&(B&&C)": ("and", "&&", A, ("and", "&&", B, Cq))}
@@ -1068,10 +1193,14 @@ def run(tier, seed, res, model_ok=True, proof_ok=True):
                                             "shuf_seed": c["shuf_seed"], "queries": c["queries"]} for c in cases],
                         chunksize=50)
         impl_c = pool.map(impl_compile, soup, chunksize=500)
+        batches = gen_batches(rng, cases, 240 if quick else 4000)
+        impl_b = pool.map(impl_batch, [{"rows": b["rows"], "queries": b["queries"]} for b in batches], chunksize=20)
 
     for c, r in zip(cases, impl):
         adopt_built(c, r)
         check_case(c, r, res, stats)
+    for b, r in zip(batches, impl_b):
+        check_batch(b, r, res, stats)
     for q, got in zip(soup, impl_c):
         check_compile(q, got, res, stats)
 
@@ -1162,6 +1291,10 @@ def run(tier, seed, res, model_ok=True, proof_ok=True):
         "correspondence_edit_histories": edited_pairs if model_ok else 0,
         "oracle_failures": stats["oracle_failures"],
         "histogram": hist,
+        "batches": {"count": len(batches), "rows": sum(len(b["rows"]) for b in batches),
+                    "with_hole_before_annotation": sum(
+                        1 for b in batches if any(not t and any(b["rows"][k] for k in range(i + 1, len(b["rows"])))
+                                                  for i, t in enumerate(b["rows"])))},
         "fixed_semantics": bool(FIXED),
         "fixed_F4": bool(FIXED_F4),
     }
@@ -1175,6 +1308,18 @@ def replay(payload):
     case = payload.get("case") or {}
     res = C.Result(PROP)
     res.known_ids = {}
+    if "batch_rows" in case:
+        b = {"rows": case["batch_rows"], "queries": case["batch_queries"]}
+        r = impl_batch(b)
+        print("queries:", b["queries"])
+        bad = bool(r["problems"])
+        for i, row in enumerate(b["rows"]):
+            fr = r.get("frame", [None] * len(b["rows"]))[i]
+            sg = r.get("single", [None] * len(b["rows"]))[i]
+            print(f"  row {i} {row!r}: frame {fr} / alone {sg}" + ("   <-- differs" if fr != sg else ""))
+            bad = bad or fr != sg
+        print("problems:", r["problems"])
+        return 1 if bad else 0
     if "replay_case" in case:
         rc = case["replay_case"]
         tree, stree = list(tup(rc["tree"])), list(tup(rc["stree"]))
